@@ -1,6 +1,7 @@
 import ParanoidModel.Driver.Common
 import ParanoidModel.Model.Hnp
 import ParanoidModel.Model.Cr50
+import ParanoidModel.Model.LcgShipped
 namespace Paranoid.Driver
 open Paranoid.Proto
 
@@ -108,6 +109,14 @@ def hnpOps : Dispatcher := fun op args =>
       let lcg ← parseOptNat? lcg; let flags ← parseFlags? flags; let factory ← parseFactory? factory
       let bases ← parseBases? bases
       pure (fmtGuesses (hnpForCurve a b curve curveN lcg flags factory (fun i => bases.getD i [])))
+  | "hnp.shipped", [idx] => do
+      -- the shipped CONSTANT_FACTORY entry the Lean examples are stated about (Model/LcgShipped.lean),
+      -- in the format `parseMeta?` reads: curve,lcg,ss,ms,sw,w,c0,d0,…
+      let idx ← parseNat? idx
+      if idx ≠ 0 then none else
+      let m := lcgShipped0
+      pure (fmtIntList ([(m.curve : Int), m.lcg, m.sampleSize, m.minSignatures, m.slidingWindowSize, m.w] ++
+        m.constants.flatMap (fun cd => [cd.1, cd.2])))
   | "cr50.lattice", [a, b, w, p, basis] => do
       let a ← parseInt? a; let b ← parseInt? b; let w ← parseInt? w; let p ← parseNat? p
       let basis ← parseIntList? basis
